@@ -26,7 +26,8 @@ REPO = os.environ.get("VERIF_REPO", os.path.normpath(os.path.join(ROOT, "..", "r
 OUT = os.path.join(ROOT, "out")
 EVID = os.path.join(ROOT, "evidence")
 DRIVER = os.path.join(LEAN, ".lake", "build", "bin", "model_driver")
-HARNESS_BIN = os.path.join(HARNESS, "target", "debug", "harness")
+# VERIF_HARNESS_BIN: an already built harness (tools/coverage.sh uses an instrumented one); never set by MANIFEST commands
+HARNESS_BIN = os.environ.get("VERIF_HARNESS_BIN") or os.path.join(HARNESS, "target", "debug", "harness")
 ALLOWED_AXIOMS = {"propext", "Classical.choice", "Quot.sound"}
 FORBIDDEN = re.compile(r"\bsorry\b|\badmit\b|^axiom |native_decide|bv_decide|implemented_by|\bunsafe |maxHeartbeats 0", re.M)
 NCPU = os.cpu_count() or 4
@@ -177,6 +178,8 @@ def proof_stage(plug, tier, log):
 # ------------------------------------------------------------------ tie stage
 
 def build_harness(log):
+    if os.environ.get("VERIF_HARNESS_BIN"):
+        return True, ""
     lock_src = os.path.join(REPO, "Cargo.lock")
     lock_dst = os.path.join(HARNESS, "Cargo.lock")
     if not os.path.exists(lock_dst):
